@@ -80,6 +80,10 @@ type storeRec struct {
 	state DNF
 	seq   int    // global evaluation order of the store
 	frame *Frame // frame in which the store was evaluated
+	// approx: some path state had been widened (compress beyond dnfCap) before this store was
+	// evaluated, so `state` may be weaker than the store's real path condition and must not be
+	// used to conclude that the store was executed (only that it was not)
+	approx bool
 }
 
 // AStruct is a symbolic struct value (fields derived lazily from key).
